@@ -369,6 +369,51 @@ func (x *c02ctx) r8() {
 		}
 		nGen++
 		for _, c := range callsIn(ic.Info, fi.Decl.Body, true, "interp.childPos") {
+			// only a position used to index a frame's data vector is a slot (a position used to
+			// pick a sibling node, as the per-iteration loop-variable generator does, is not)
+			posVars := map[types.Object]bool{}
+			ast.Inspect(fi.Decl.Body, func(m ast.Node) bool {
+				if as, ok := m.(*ast.AssignStmt); ok && len(as.Lhs) == len(as.Rhs) {
+					for i, rhs := range as.Rhs {
+						if rhs.Pos() <= c.Pos() && c.End() <= rhs.End() {
+							if id, ok := as.Lhs[i].(*ast.Ident); ok {
+								if t := ic.Info.TypeOf(id); t != nil && types.Identical(t.Underlying(), types.Typ[types.Int]) {
+									posVars[ic.Info.ObjectOf(id)] = true
+								}
+							}
+						}
+					}
+				}
+				return true
+			})
+			usedAsSlot := false
+			dataFld := ic.field("frame", "data")
+			ast.Inspect(fi.Decl.Body, func(m ast.Node) bool {
+				ix, ok := m.(*ast.IndexExpr)
+				if !ok {
+					return true
+				}
+				isVec := selField(ic.Info, ix.X) == dataFld
+				if t := ic.Info.TypeOf(ix.X); t != nil && types.TypeString(t, nil) == "[]reflect.Value" {
+					isVec = true
+				}
+				if !isVec {
+					return true
+				}
+				ast.Inspect(ix.Index, func(k ast.Node) bool {
+					if k == ast.Node(c) {
+						usedAsSlot = true
+					}
+					if id, ok := k.(*ast.Ident); ok && posVars[ic.Info.ObjectOf(id)] {
+						usedAsSlot = true
+					}
+					return true
+				})
+				return true
+			})
+			if !usedAsSlot {
+				continue
+			}
 			excluded := false
 			for _, g := range pathGuards(fi.Decl.Body, c) {
 				v := evalCond(g.cond, atom)
